@@ -21,6 +21,9 @@ type BoolSim struct {
 	Fn *ssa.Function
 	// Atom returns the truth value assigned to v, if v is an atom.
 	Atom func(v ssa.Value) (val, ok bool)
+	// Stop: a block containing one of these instructions is reached but not left
+	// (used for "cannot get from A to B without passing X" under an assignment).
+	Stop map[ssa.Instruction]bool
 	// In records, after Run, through which predecessor indices each block was entered.
 	In map[*ssa.BasicBlock]map[int]bool
 }
@@ -143,6 +146,15 @@ func (s *BoolSim) Run() map[*ssa.BasicBlock]bool {
 				}
 			}
 			return -1
+		}
+		stopped := false
+		for _, in := range st.b.Instrs {
+			if s.Stop[in] {
+				stopped = true
+			}
+		}
+		if stopped {
+			continue
 		}
 		last := st.b.Instrs[len(st.b.Instrs)-1]
 		if iff, ok := last.(*ssa.If); ok {
